@@ -187,6 +187,46 @@ func TestVerif_C09(t *testing.T) {
 			}
 			res.Count("reruns", 1)
 		}
+		// backend errors instead of crashes: the k-th mutating operation of the prune fails (before or
+		// after taking effect); whatever prune reports, nothing that is still referenced may be lost
+		_ = e.trace(false) // project the reference run before its files are looked at again (nonce bookkeeping)
+		nmut := 0
+		for _, op := range ops[startSeq:] {
+			if op.Kind == "Save" || op.Kind == "Remove" {
+				nmut++
+			}
+		}
+		nfault := kit.Pick(3, 40)
+		for fi, k := range rng.Perm(nmut) {
+			if fi >= nfault {
+				break
+			}
+			st := kit.NewStoreFrom(base)
+			for _, n := range st.Names(lockFileType) {
+				st.Del(backendHandle{Type: lockFileType, Name: n})
+			}
+			fe := newVEnv(t, st)
+			fe.proj = e.projector()
+			after := fi%2 == 1
+			st.Fault = kit.FailAt(k+1, after)
+			ferr := fe.prune(h.Prune)
+			st.Revive()
+			fails := vOracle(t, st.Files(), vPassword, want, keep)
+			res.Case(fmt.Sprintf("%d/fail@%d/%v", h.Seed, k+1, after), true)
+			res.Count("fault_runs", 1)
+			if len(fails) > 0 {
+				res.Violate(fmt.Sprintf("prune/backend-error/%s", vClass(fails[0])),
+					fmt.Sprintf("history seed %d (%s): backend error (after effect: %v) at mutating op %d of prune (prune returned %v): %v", h.Seed, h.PruneDesc, after, k+1, ferr, fails),
+					map[string]any{"history": h.Seed, "k": k + 1, "after_effect": after})
+			}
+			tr.Write(kit.Ev{"ev": "Reset", "proc": "env", "history": h.Seed, "desc": fmt.Sprintf("%s fail@%d", h.PruneDesc, k+1)})
+			if !damaged {
+				for _, ev := range fe.proj.InitEvents(base) {
+					tr.Write(ev)
+				}
+				vWriteTrace(tr, fe.trace(false))
+			}
+		}
 		vOracleSkipCheck = false
 		tr.Write(kit.Ev{"ev": "Reset", "proc": "env", "history": h.Seed, "desc": h.PruneDesc})
 		vWriteTrace(tr, e.trace(false))
